@@ -251,10 +251,10 @@ Definition tr_stmts_with (c : dctx) (trs : fctx -> list lset -> stmt -> lset -> 
       match go (decl_after c Ds t) r La with
       | None => None
       | Some Lm =>
-          if is_fun t then trs fc Ds t Lm
-          else if in_plan_stmt (d_pa c) (stmt_sid t) then
+          if in_plan_stmt (d_pa c) (stmt_sid t) then
             if in_acc c (stmt_sid t) then
               if pruned_store_ok Ds Lm t then Some Lm else None
+            else if is_fun t then trs fc Ds t Lm     (* definitions are hoisted even when skipped *)
             else Some Lm
           else trs fc Ds t Lm
       end
